@@ -1,6 +1,6 @@
 """Table of claimed properties -> MANIFEST.json (bin/mkmanifest)."""
 
-HOOK_COMMITS = ["612012a", "52c5ec9", "f8ba99f"]
+HOOK_COMMITS = ["612012a", "52c5ec9", "f8ba99f", "be6dc21"]
 
 COMMON_NOTE = ("Trusted: Lean 4.33 kernel; axioms limited to propext/Classical.choice/Quot.sound (audited with #print axioms on every run); "
                "the go/factx translator and the correspondence harness/generators/canonicalisers; Go's encoding/json, strconv, unicode/utf8 as executable "
@@ -130,10 +130,13 @@ CLAIMS["C01"] = {
     "text": "Two models of Unmarshal over a universe of Go types (scalars of every width, pointers, slices, arrays, structs with tags/,string, maps with every key kind, "
             "interface{}, json.Number, RawMessage, []byte): Bind.decode = parse-then-bind written after encoding/json, Stream.decode = single-pass type-directed decoding "
             "with structural skipping as sonic's JIT does it; stream_eq_bind proves them equal (value and error kind) on every document the strict parser accepts, for "
-            "every option set and type, plus field-lookup, duplicate-key, integer-exactness (iff), null and array theorems. Generated (type, document, config) cases are "
-            "run through sonic, encoding/json and the model.",
-    "note": COMMON_NOTE + " Library (method-carrying/recursive) types and embedded structs are outside the model and judged by encoding/json alone; float values come from the exact Num model (C19).",
-    "technique": "Lean 4 proof (single-pass decoder = parse-then-bind specification, induction over types) + three-voice differential correspondence",
+            "every option set and type, plus field-lookup, duplicate-key, integer-exactness (iff), null and array theorems. The JIT decoder's own program is modelled too: "
+            "compile (transliterated from jitdec/compiler.go; disassembly byte-identical to the real compiler on every generated type through a verif hook) and an abstract "
+            "machine exec with exec(compile T) = Stream.decode on every strictly valid document for a sub-universe, value-stack balance and the depth error. Generated "
+            "(type, document, config) cases are run through sonic, encoding/json and the models.",
+    "note": COMMON_NOTE + " Library (method-carrying/recursive) types and embedded structs are outside the decode models and judged by encoding/json alone; float values come from the exact Num model (C19); "
+            "the decoder-IR theorem covers bool/ints/floats/strings/pointers/slices/arrays/structs (maps, interface{}, ,string fields are in the machine only) and the accepting direction on malformed input.",
+    "technique": "Lean 4 proof (single-pass decoder = parse-then-bind specification; compiler correctness of the decoder IR) + disassembly tie + three-voice differential correspondence",
 }
 CLAIMS["C11"] = {
     "text": "The alternative decoder is the parse-then-bind architecture and the default one the streaming architecture of the C01 models, so decoders_agree_on_valid and "
